@@ -1,5 +1,7 @@
 import JediModel.Lemmas.Scopes
 import JediModel.Lemmas.ScopesChain
+import JediModel.Model.CompCtx
+import JediModel.Gen.C03
 /-! # C03 — Name resolution follows Python's scoping rules
 
 `goto` is jedi's algorithm, `varOf` Python's variable identity (owning scope of the
@@ -300,6 +302,106 @@ theorem witnesses_not_covered :
     CoveredUse witnessCompInClass 3 = false ∧ CoveredUse witnessNestedClass 4 = false ∧
     CoveredUse witnessClassLoadName 4 = false ∧ CoveredUse witnessGlobalShadow 5 = false := by
   decide
+
+/-! ## Which context a node of a comprehension is looked up from
+
+`Model/CompCtx.lean` transcribes the comprehension branch of `create_context`; the operator and
+the return values come from the source (`Gen/C03.lean`).  Python evaluates the OUTERMOST iterable
+of a comprehension in the enclosing scope - every leaf of it, the first one included
+(`[x for x in x]`: the iterable `x` is the enclosing scope's) - and everything else inside the
+comprehension's own scope. The flat table of `Model/Scopes` encodes the iterable as a use in the
+enclosing scope on the strength of these theorems (and of the `compctx` correspondence stream). -/
+section CompCtx
+open JediModel.CompCtx
+
+/-- the branch with the operator / return values of the real source -/
+def srcNodeContext (c : CompFor) (node : Pos) : Option Ctx :=
+  nodeContext JediModel.Gen.C03.compIterCmp JediModel.Gen.C03.compIterThen
+    JediModel.Gen.C03.compIterElse c node
+
+/-- the compared operands are the ones the model transcribes, and the branch is the one for both
+comprehension node types -/
+theorem comp_ctx_operands :
+    JediModel.Gen.C03.compIterLeft = "node.start_pos" ∧
+    JediModel.Gen.C03.compIterRight = "scope_node.children[-1].start_pos" ∧
+    JediModel.Gen.C03.compForTypes = ["comp_for", "sync_comp_for"] := by decide
+
+theorem pos_lt_iff_not_le (a b : Pos) : Pos.lt a b = !Pos.le b a := by
+  unfold Pos.le Pos.lt
+  rcases a with ⟨a1, a2⟩
+  rcases b with ⟨b1, b2⟩
+  simp only
+  by_cases h1 : a1 < b1
+  · have : ¬ b1 < a1 := by omega
+    have h3 : (b1 == a1) = false := by simp; omega
+    simp [h1, this, h3]
+  · by_cases h2 : b1 < a1
+    · have h3 : (a1 == b1) = false := by simp; omega
+      simp [h1, h2, h3]
+    · have h3 : a1 = b1 := by omega
+      subst h3
+      by_cases h4 : a2 < b2
+      · have : ¬ b2 < a2 := by omega
+        have h5 : (b2 == a2) = false := by simp; omega
+        simp [h4, this, h5]
+      · by_cases h5 : b2 < a2
+        · simp [h4, h5]
+        · have : a2 = b2 := by omega
+          subst this
+          simp
+
+/-- **Characterisation of the real branch**: a node gets the enclosing context exactly when it
+starts at or after the start of the comprehension's last child; otherwise the comprehension's own
+context.  Total: never an unknown outcome. -/
+theorem comp_ctx_parent_iff (c : CompFor) (node : Pos) :
+    (srcNodeContext c node = some .parent ↔ Pos.le c.lastStart node = true) ∧
+    (srcNodeContext c node = some .comp ↔ Pos.le c.lastStart node = false) := by
+  unfold srcNodeContext nodeContext
+  simp only [JediModel.Gen.C03.compIterCmp, JediModel.Gen.C03.compIterThen,
+    JediModel.Gen.C03.compIterElse, cmp]
+  cases h : Pos.le c.lastStart node <;> simp [ctxOfTag]
+
+/-- **The outermost iterable belongs to the enclosing scope** - every leaf of it, the FIRST one
+included.  Partial: only for a comprehension without a further `for`/`if` clause (then
+`children[-1]` is the iterable); see `comp_with_condition_witness`. -/
+theorem comp_iterable_in_enclosing_context_partial (c : CompFor) (hlast : c.lastStart = c.iterStart)
+    (node : Pos) (h : Pos.le c.iterStart node = true) :
+    srcNodeContext c node = some .parent := by
+  rw [(comp_ctx_parent_iff c node).1, hlast]
+  exact h
+
+theorem pos_le_refl (a : Pos) : Pos.le a a = true := by
+  unfold Pos.le
+  simp
+
+/-- the first leaf of the iterable (it starts where the iterable starts) -/
+theorem comp_iterable_first_leaf_partial (c : CompFor) (hlast : c.lastStart = c.iterStart) :
+    srcNodeContext c c.iterStart = some .parent :=
+  comp_iterable_in_enclosing_context_partial c hlast c.iterStart (pos_le_refl _)
+
+/-- element expression and loop targets (everything that starts before the last child) belong to
+the comprehension's own scope -/
+theorem comp_head_in_comp_context (c : CompFor) (node : Pos) (h : Pos.lt node c.lastStart = true) :
+    srcNodeContext c node = some .comp := by
+  rw [(comp_ctx_parent_iff c node).2]
+  rw [pos_lt_iff_not_le] at h
+  simpa using h
+
+/-- counter-witness to the unrestricted statement, `[a for a in a if a]` on line 3: with an `if`
+clause the iterable `a` (3, 12) is given the comprehension's context (jedi lands on the loop
+target; Python reads the enclosing scope's `a`) and the condition `a` (3, 17) the enclosing one
+(Python reads the loop target).  Replayed on the real code: known findings
+C03-comprehension-condition-*. -/
+theorem comp_with_condition_witness :
+    let c : CompFor := { iterStart := (3, 12), iterEnd := (3, 13), lastStart := (3, 14) }
+    srcNodeContext c (3, 12) = some .comp ∧ srcNodeContext c (3, 17) = some .parent := by decide
+
+/-- non-vacuity: `[a for a in a]` on line 1, first leaf of the iterable at (1, 12) -/
+example : let c : CompFor := { iterStart := (1, 12), iterEnd := (1, 13), lastStart := (1, 12) }
+    c.lastStart = c.iterStart ∧ srcNodeContext c (1, 12) = some .parent ∧
+    srcNodeContext c (1, 1) = some .comp ∧ srcNodeContext c (1, 7) = some .comp := by decide
+
+end CompCtx
 
 /-! ## non-vacuity -/
 
